@@ -23,6 +23,11 @@ def mul(a, b):
     return a * b
 
 
+def star(*args):
+    CALLS.append(tuple(int(a) for a in args))
+    return [int(a) for a in args]
+
+
 @TaskGenerator
 def tg_wrap(x):
     CALLS.append(x)
